@@ -1,1 +1,135 @@
-// kani harnesses for this module (see /verif/DESIGN.md)
+// K10: environment fallback of ParseFlag::eval / ParseArgument::take_argument (src/params.rs) – bounded: 2 items.
+// `std::env::var_os` is replaced by a nondeterministic stub, so every environment state is covered (C18).
+use super::*;
+use crate::args::ItemState;
+
+static mut ENV_READS: usize = 0;
+static mut ENV_UNDECLARED_READ: bool = false;
+
+fn stub_var_os<K: AsRef<std::ffi::OsStr>>(key: K) -> Option<OsString> {
+    let k = std::os::unix::ffi::OsStrExt::as_bytes(key.as_ref());
+    unsafe {
+        ENV_READS += 1;
+        // the only declared variable of the harness parsers is "V"
+        if !(k.len() == 1 && k[0] == b'V') {
+            ENV_UNDECLARED_READ = true;
+        }
+    }
+    if kani::any() {
+        let mut v = Vec::with_capacity(1);
+        v.push(b'e');
+        Some(<OsString as std::os::unix::ffi::OsStringExt>::from_vec(v))
+    } else {
+        None
+    }
+}
+
+fn any_arg() -> (Arg, u8) {
+    let k: u8 = kani::any();
+    kani::assume(k < 3);
+    let a = match k {
+        0 => Arg::Short('a', false, OsString::new()),
+        1 => Arg::Short('b', false, OsString::new()),
+        _ => Arg::Word(OsString::new()),
+    };
+    (a, k)
+}
+
+fn two_item_state() -> (State, u8, u8, bool, bool) {
+    let (a0, k0) = any_arg();
+    let (a1, k1) = any_arg();
+    let mut items = Vec::with_capacity(2);
+    items.push(a0);
+    items.push(a1);
+    let p0: bool = kani::any();
+    let p1: bool = kani::any();
+    let mut ledger = Vec::with_capacity(2);
+    ledger.push(if p0 { ItemState::Unparsed } else { ItemState::Parsed });
+    ledger.push(if p1 { ItemState::Unparsed } else { ItemState::Parsed });
+    (State::verif_mk(items, ledger, 0, 2), k0, k1, p0, p1)
+}
+
+fn named_a_env() -> NamedArg {
+    let mut short = Vec::with_capacity(1);
+    short.push('a');
+    let mut env = Vec::with_capacity(1);
+    env.push("V");
+    NamedArg { short, long: Vec::new(), env, help: None }
+}
+
+#[kani::proof]
+#[kani::unwind(6)]
+#[kani::stub(std::env::var_os, stub_var_os)]
+fn k10_flag_line_beats_env() {
+    let (mut st, k0, k1, p0, p1) = two_item_state();
+    let absent: Option<u8> = if kani::any() { Some(0) } else { None };
+    let has_absent = absent.is_some();
+    let p = ParseFlag { present: 1u8, absent, named: named_a_env() };
+    let on_line = (k0 == 0 && p0) || (k1 == 0 && p1);
+    let before = st.verif_remaining();
+    let r = p.eval(&mut st);
+    let reads = unsafe { ENV_READS };
+    assert!(!unsafe { ENV_UNDECLARED_READ });
+    if on_line {
+        // present on the line: the variable is not even consulted, exactly one item consumed
+        assert!(matches!(r, Ok(1)));
+        assert!(reads == 0);
+        assert!(st.verif_remaining() + 1 == before);
+    } else {
+        assert!(st.verif_remaining() == before);
+        assert!(reads == 1);
+        match &r {
+            Ok(1) => {}                                   // variable set: the flag counts as present
+            Ok(0) => assert!(has_absent),                  // both absent: the declared absent value
+            Err(Error(Message::Missing(_))) => assert!(!has_absent),
+            _ => assert!(false),
+        }
+    }
+    kani::cover!(on_line);
+    kani::cover!(!on_line && matches!(r, Ok(1)));
+    std::mem::forget(r);
+    std::mem::forget(st);
+    std::mem::forget(p);
+}
+
+#[kani::proof]
+#[kani::unwind(6)]
+#[kani::stub(std::env::var_os, stub_var_os)]
+fn k10_argument_line_beats_env() {
+    let (mut st, k0, k1, p0, p1) = two_item_state();
+    let p: ParseArgument<String> = ParseArgument { ty: PhantomData, named: named_a_env(), metavar: "M", adjacent: false };
+    // `-a` at 0 followed by an available word at 1 is the only complete occurrence
+    let key_at0 = k0 == 0 && p0;
+    let key_at1 = k1 == 0 && p1;
+    let before = st.verif_remaining();
+    let r = p.take_argument(&mut st);
+    let reads = unsafe { ENV_READS };
+    assert!(!unsafe { ENV_UNDECLARED_READ });
+    if key_at0 {
+        assert!(reads == 0);
+        if k1 == 2 && p1 {
+            assert!(r.is_ok());
+            assert!(st.verif_remaining() + 2 == before);
+        } else {
+            // name present, value missing: final error, the variable is not used to paper over it
+            assert!(matches!(r, Err(Error(Message::NoArgument(0, _)))));
+            assert!(st.verif_remaining() == before);
+        }
+    } else if key_at1 {
+        assert!(reads == 0);
+        assert!(matches!(r, Err(Error(Message::NoArgument(1, _)))));
+    } else {
+        assert!(reads == 1);
+        assert!(st.verif_remaining() == before);
+        match &r {
+            Ok(v) => assert!(std::os::unix::ffi::OsStrExt::as_bytes(v.as_os_str()).len() == 1),
+            Err(Error(Message::Missing(_))) => {}
+            _ => assert!(false),
+        }
+    }
+    kani::cover!(key_at0 && r.is_ok());
+    kani::cover!(!key_at0 && !key_at1 && r.is_ok());
+    std::mem::forget(r);
+    std::mem::forget(st);
+    std::mem::forget(p);
+}
